@@ -124,8 +124,21 @@ pub fn observe_scale(text: &str, bits: u32, conv_name: &str, f: f64, pred_base: 
         }
     }
     let base_used = orig.servings().and_then(|s| s.first().copied()).unwrap_or(1);
+    // servings set by hand replace the declared ones: scale_to_servings(n) == scale(n / 5) after set_servings([5, 3])
+    let mut set_equiv = true;
+    for n in [2u32, 10] {
+        let mut r = parse().unwrap();
+        r.set_servings(vec![5, 3]);
+        let a = r.scale_to_servings(n, &conv);
+        let b = parse().unwrap().scale(n as f64 / 5.0, &conv);
+        let strip = |x: &cooklang::ScaledRecipe| project::recipe(x);
+        if strip(&a) != strip(&b) {
+            set_equiv = false;
+        }
+    }
     json!({"st": "ok", "igr": igr, "cw": cw, "tm": tm, "outcome_lens": [data.ingredients.len(), data.cookware.len(), data.timers.len()],
-           "rest_unchanged": rest_unchanged, "default_verbatim": default_verbatim, "servings_equiv": servings_equiv, "base_used": base_used})
+           "rest_unchanged": rest_unchanged, "default_verbatim": default_verbatim, "servings_equiv": servings_equiv, "base_used": base_used,
+           "set_servings_equiv": set_equiv})
 }
 
 /// `scale --in docs.ndjson --out obs.ndjson --factors 0.5,2,...`
